@@ -289,3 +289,110 @@ T("C13", "twin-helper", LIB, """    else:
         new_mps.canonicalise()
         new_mps.compress(temp_m_trunc=temp_m_trunc)
         return new_mps""", "single-term branch re-wrapped over several statements")
+
+# ------------------------------------------------------------------------------------------------ tree rules (C02, C11, C12, C08 tree part)
+TTNOB = "renormalizer/tn/symbolic_ttno.py"
+TBASE = "renormalizer/tn/treebase.py"
+M("C02", "updown-swapped", TREE, "            indices.append((prefix_up, str(dofs)))\n            indices.append((prefix_down, str(dofs)))",
+  "            indices.append((prefix_down, str(dofs)))\n            indices.append((prefix_up, str(dofs)))", ["label-schema"], "operator physical labels (down, up) instead of (up, down)")
+M("C02", "children-ops-reversed", TTNOB, "in_ops_list = [out_ops_list[i] for i in children_idx]\n            m = len", "in_ops_list = [out_ops_list[i] for i in children_idx[::-1]]\n            m = len",
+  ["builder-columns"], "incoming bond operators handed over in reversed child order (invisible for chains)")
+M("C02", "roll-direction", TTNOB, "table = np.roll(table, -1, axis=1)", "table = np.roll(table, 1, axis=1)", ["builder-columns"], "new bond column rolled to the wrong end")
+M("C02", "moveaxis-target", TTNOB, "return np.moveaxis(mo_tensor, mo.ndim - 1, -1)", "return np.moveaxis(mo_tensor, mo.ndim - 1, mo.ndim)", ["layout"], "parent bond moved behind the first physical axis only")
+M("C02", "partition-size", TBASE, "size = (len(sequence) - 1) // ngroups + 1", "size = len(sequence) // ngroups", ["constructors"], "approximate_partition drops the tail for lengths not divisible by the group count")
+M("C02", "binary-skips-one", TBASE, "new_offspring = offspring[2:]", "new_offspring = offspring[3:]", ["constructors"], "binary tree constructor loses a basis set for n >= 4")
+M("C02", "todense-rows-cols", TREE, "output_indices = indices_up + indices_down", "output_indices = indices_down + indices_up", ["state-network"], "TTNO.todense returns the transpose")
+T("C02", "twin-roll-as-concat", TTNOB, "table = np.roll(table, -1, axis=1)", "table = np.concatenate((table[:, 1:], table[:, :1]), axis=1)", "roll written as a concatenation of slices")
+T("C02", "twin-extend", TREE, "            indices.append((prefix_up, str(dofs)))\n            indices.append((prefix_down, str(dofs)))",
+  "            indices.extend([(prefix_up, str(dofs)), (prefix_down, str(dofs))])", "two appends written as one extend")
+
+M("C11", "env-conj-labels-swapped", TREE, """        args.append(snode.tensor.conj())
+        args.append(ttns.get_node_indices(snode, conj=True))
+
+        args.append(onode.tensor)
+        args.append(ttno.get_node_indices(onode))
+
+        args.append(snode.tensor)
+        args.append(ttns.get_node_indices(snode, ttno=ttno))
+
+        # indices for the resulting tensor
+        indices = self.get_parent_indices(enode, ttns, ttno)""", """        args.append(snode.tensor.conj())
+        args.append(ttns.get_node_indices(snode, ttno=ttno))
+
+        args.append(onode.tensor)
+        args.append(ttno.get_node_indices(onode))
+
+        args.append(snode.tensor)
+        args.append(ttns.get_node_indices(snode, conj=True))
+
+        # indices for the resulting tensor
+        indices = self.get_parent_indices(enode, ttns, ttno)""", ["env-network"], "bra and ket labels exchanged in the children environment (invisible for real states)")
+M("C11", "parent-env-includes-target-child", TREE, "            if j == ichild:\n                continue\n            indices = self.get_child_indices(enode, j, ttns, ttno)",
+  "            if j == ichild and j > 0:\n                continue\n            indices = self.get_child_indices(enode, j, ttns, ttno)", ["env-network"], "parent environment of child 0 contains child 0's own environment")
+M("C11", "qnmat-phys-reversed", TREE, "        for b in self.tn2bn[node].basis_sets:\n            qnbigl = add_outer(qnbigl, b.sigmaqn)\n        if not include_parent:",
+  "        for b in self.tn2bn[node].basis_sets[::-1]:\n            qnbigl = add_outer(qnbigl, b.sigmaqn)\n        if not include_parent:", ["decomposition-axes"], "physical labels of multi-basis nodes listed in reverse axis order")
+M("C11", "decompose-child-axis", TREE, "node.tensor = np.moveaxis(u.reshape(shape), -1, ichild)\n        node.children[ichild].qn = qnr", "node.tensor = np.moveaxis(u.reshape(shape), -1, 0)\n        node.children[ichild].qn = qnr",
+  ["decomposition-axes"], "new bond restored at axis 0 instead of the child's position (wrong for ichild > 0)")
+M("C11", "update2site-qn-side", TREE, "node.qn = self.qntot - msqn", "node.qn = msqn", ["decomposition-axes"], "labels of the new bond stored for the wrong side when the centre stays on the child")
+M("C11", "add-physical-classified-virtual", TREE, "is_physical_idx = len(node1.children) <= i and", "is_physical_idx = len(node1.children) < i and", ["direct-sum"], "first physical axis treated as a bond in TTNS.add")
+M("C11", "add-qn-order", TREE, "new_node.qn = np.concatenate([node1.qn, node2.qn], axis=0)", "new_node.qn = np.concatenate([node2.qn, node1.qn], axis=0)", ["direct-sum"], "labels concatenated in the other order than the blocks")
+M("C11", "apply-qn-order", TREE, "snode2.qn = add_outer(snode1.qn, onode.qn)", "snode2.qn = add_outer(onode.qn, snode1.qn)", ["state-network"], "merged-bond labels (operator, state) vs tensor (state, operator)")
+M("C11", "rdm2-skip-parent-env", TREE, "                    elif node.parent is neighbour_node:\n                        skip_parent = True", "                    elif node.parent is neighbour_node:\n                        skip_parent = False",
+  ["state-network"], "two-site RDM contracts the parent environment of a node whose parent is on the path (double counting)")
+M("C11", "merge-to-parent-position", TREE, "output_indices[node.idx_as_child] = child_idx2", "output_indices[0] = child_idx2", ["state-network"], "new bond label placed at child position 0 regardless of the child index")
+T("C11", "twin-remove-twice", TREE, "            for i in range(2):\n                indices.remove(shared_bond)", "            indices.remove(shared_bond)\n            indices.remove(shared_bond)", "loop unrolled")
+T("C11", "twin-args-order", TREE, """        args.append(snode.tensor.conj())
+        args.append(ttns.get_node_indices(snode, conj=True))
+
+        args.append(onode.tensor)
+        args.append(ttno.get_node_indices(onode))
+
+        args.append(snode.tensor)
+        args.append(ttns.get_node_indices(snode, ttno=ttno))
+
+        # indices for the resulting tensor
+        indices = self.get_parent_indices(enode, ttns, ttno)""", """        args.append(onode.tensor)
+        args.append(ttno.get_node_indices(onode))
+
+        args.extend([snode.tensor.conj(), ttns.get_node_indices(snode, conj=True)])
+
+        args.append(snode.tensor)
+        args.append(ttns.get_node_indices(snode, ttno=ttno))
+
+        # indices for the resulting tensor
+        indices = self.get_parent_indices(enode, ttns, ttno)""", "operands of the contraction listed in another order")
+
+M("C12", "ps1-missing-env-refresh", TEVO, "            ms = ttns.decompose_to_parent(snode)\n            # update env\n            ttne.build_children_environ_node(snode, ttns, ttno)", "            ms = ttns.decompose_to_parent(snode)",
+  ["sweep-typestate"], "children environment not rebuilt after the QR in the forward one-site sweep")
+M("C12", "ps1-zero-site-sign", TEVO, "ms_t, j = evolve_0site(ms.T, snode, ttns, ttno, ttne, coeff, -tau)", "ms_t, j = evolve_0site(ms.T, snode, ttns, ttno, ttne, coeff, tau)", ["sweep-splitting"], "bond matrix evolved forward instead of backward")
+M("C12", "ps1-bond-orientation", TEVO, "ms_t, j = evolve_0site(ms.T, snode,", "ms_t, j = evolve_0site(ms, snode,", ["sweep-typestate"], "bond matrix passed as (parent, child) to a kernel expecting (child, parent)")
+M("C12", "ps2-skip-backward-1site", TEVO, "        if snode is ttns.root and ichild == len(snode.children) - 1:\n            continue", "        if snode is ttns.root:\n            continue", ["sweep-splitting"],
+  "root never evolved backward between its children's two-site problems")
+M("C12", "hop1-labels-exchanged", THOP, "    input_indices = ttns.get_node_indices(snode, ttno=ttno)\n    output_indices = ttns.get_node_indices(snode, conj=True)\n\n    shape = snode.shape",
+  "    input_indices = ttns.get_node_indices(snode, conj=True)\n    output_indices = ttns.get_node_indices(snode, ttno=ttno)\n\n    shape = snode.shape", ["heff-network"], "one-site effective Hamiltonian transposed")
+M("C12", "hop2-missing-sibling-skip", THOP, "        if eparent.children[i] is enode:\n            continue", "        if eparent.children[i] is enode and i > 0:\n            continue", ["heff-network"], "two-site H_eff contains the node's own environment when it is child 0")
+M("C12", "hop0-output", THOP, "    output_indices.append(indices[0])\n    input_indices.append(indices[2])\n    args.append(indices)\n\n    tensor = enode.environ_parent", "    output_indices.append(indices[2])\n    input_indices.append(indices[0])\n    args.append(indices)\n\n    tensor = enode.environ_parent",
+  ["heff-network"], "zero-site H_eff: bra/ket of the child environment exchanged")
+M("C12", "vmf-unpack-reversed", TREE, "for node, tnode in zip(ttns.node_list, template.node_list):", "for node, tnode in zip(ttns.node_list[::-1], template.node_list[::-1]):", ["pack-unpack"], "VMF vector unpacked in reverse node order")
+M("C12", "vmf-mask-of-root", TEVO, "qnmask = ttns.get_qnmask(node).reshape(deriv.shape)", "qnmask = ttns.get_qnmask(ttns.root).reshape(deriv.shape)", ["pack-unpack"], "derivative masked with the root's mask")
+M("C12", "update2site-parent-index", TREE, "m_trunc = self.compress_config.compute_m_trunc(s, self.node_idx[node], left=False)", "m_trunc = self.compress_config.compute_m_trunc(s, self.node_idx[parent], left=False)",
+  ["decomposition-axes"], "two-site update reads the bond limit of another bond")
+T("C12", "twin-redundant-refresh-removed", TEVO, "        local_steps.append(j)\n        # update env\n        ttne.update_1site(snode, ttns, ttno)\n    return local_steps", "        local_steps.append(j)\n    return local_steps",
+  "the last environment refresh of the forward two-site sweep rebuilds environments nobody reads before they are rebuilt again")
+T("C12", "twin-1bond-to-children-only", TEVO, "            ttns.push_cano_to_parent(child)\n            # update env\n            ttne.update_1bond(child, ttns, ttno)", "            ttns.push_cano_to_parent(child)\n            ttne.build_children_environ_node(child, ttns, ttno)",
+  "after the last push of the backward two-site sweep only the children environment is read again")
+
+M("C08", "tree-gs-centre", TGS, "ttns.update_2site(child, c, m, percent, cano_parent=False)", "ttns.update_2site(child, c, m, percent, cano_parent=True)", ["tree-sweep"], "centre left on the parent before descending into the child's sub-tree")
+M("C08", "tree-gs-no-env-update", TGS, "            ttns.update_2site(child, c, m, percent, cano_parent=False)\n            # update env\n            ttne.update_2site(child, ttns, ttno)", "            ttns.update_2site(child, c, m, percent, cano_parent=False)",
+  ["tree-sweep"], "environments not rebuilt before descending")
+
+# ------------------------------------------------------------------------------------------------ rules added from missed seeds
+M("C07", "rdm-bridge-conj", MPS, "                    tensor = tensordot(tensor, self[kms].conj(), ([2],[0]))\n                    if self[kms].ndim == 3:\n                        tensor = tensordot(tensor, self[kms], ([2,3],[0,1]))",
+  "                    tensor = tensordot(tensor, self[kms], ([2],[0]))\n                    if self[kms].ndim == 3:\n                        tensor = tensordot(tensor, self[kms].conj(), ([2,3],[0,1]))", ["rdm-network"], "conj moved to the ket line in the bridging step (rank 3)")
+M("C07", "rdm1-conj-dropped", MPS, "            tensor = tensordot(ltensor, ms.conj(), ([0],[0]))\n            tensor = tensordot(tensor, rtensor, ([-1],[0]))\n            if ms.ndim == 3:\n                tensor = tensordot(tensor, ms, ([0,-1],[0,-1]))",
+  "            tensor = tensordot(ltensor, ms, ([0],[0]))\n            tensor = tensordot(tensor, rtensor, ([-1],[0]))\n            if ms.ndim == 3:\n                tensor = tensordot(tensor, ms.conj(), ([0,-1],[0,-1]))", ["rdm-network"], "1-site RDM conjugated (rank 3 only)")
+M("C09", "error-bare-over-full", MPS, "error = error.norm / new_mps.norm", "error = error.mp_norm / new_mps.norm", ["relative-error-homogeneous"], "numerator without the prefactor")
+M("C17", "jw-sign-or", SYMMPO, "n_permutes = op2_new_sigma_z * (op1_n_sigma_plus + op1_n_sigma_minus)", "n_permutes = op2_new_sigma_z * (op1_n_sigma_plus or op1_n_sigma_minus)", ["jw-sign-parity"], "number operators get a sign")
+T("C17", "twin-jw-parity", SYMMPO, "n_permutes = op2_new_sigma_z * (op1_n_sigma_plus + op1_n_sigma_minus)", "n_permutes = op2_new_sigma_z * ((op1_n_sigma_plus + op1_n_sigma_minus) % 2)", "same parity")
+M("C01", "qr-shortcut-min", SYMMPO, "    if gamma.shape[1] != 1:", "    if min(gamma.shape) != 1:", ["qr-shortcut-shape"], "single-row matrices take the single-column shortcut")
+T("C01", "twin-qr-guard", SYMMPO, "    if gamma.shape[1] != 1:", "    if gamma.shape[1] > 1:", "same guard")
